@@ -41,12 +41,15 @@ impl Rng {
 pub struct Trace {
     out: std::io::BufWriter<std::fs::File>,
     pub events: u64,
+    /// when set, events are dropped (drivers whose verdict does not go through a trace specification)
+    pub mute: bool,
 }
 impl Trace {
     pub fn create(path: &str) -> Self {
-        Trace { out: std::io::BufWriter::new(std::fs::File::create(path).expect("trace file")), events: 0 }
+        Trace { out: std::io::BufWriter::new(std::fs::File::create(path).expect("trace file")), events: 0, mute: false }
     }
     pub fn emit(&mut self, v: Value) {
+        if self.mute { return; }
         serde_json::to_writer(&mut self.out, &v).unwrap();
         self.out.write_all(b"\n").unwrap();
         self.events += 1;
